@@ -272,6 +272,7 @@ def write_replay(prop, modname, sig, example):
                 module=modname,
                 signature=sig,
                 case=example["case"],
+                history=example.get("history"),
                 expected=example.get("expected"),
                 observed=example.get("observed"),
                 detail=example.get("detail"),
@@ -303,6 +304,37 @@ def _replay_child(args):
     return [dict(sig=v["sig"], expected=v.get("expected"), observed=v.get("observed"), detail=v.get("detail")) for v in res.get("violations", ())]
 
 
+def _replay_history_child(args):
+    """the cases one worker ran before (and including) case number `upto`, in the same order, in a fresh process; -> violations of that last case"""
+    modname, tier, seed, shard, nshards, upto, options = args
+    scrub_env()
+    add_deps()
+    if not os.environ.get("VERIF_WORKER_OUTPUT"):
+        sys.stdout = sys.stderr = open(os.devnull, "w")
+    import importlib
+
+    mod = importlib.import_module(modname)
+    if hasattr(mod, "configure"):
+        mod.configure(options)
+    if hasattr(mod, "worker_init"):
+        mod.worker_init(tier, seed)
+    res = {}
+    for idx, case in enumerate(mod.cases(tier, seed)):
+        if idx > upto:
+            break
+        if idx % nshards != shard:
+            continue
+        res = run_one(mod, case)
+    return [dict(sig=v["sig"], expected=v.get("expected"), observed=v.get("observed"), detail=v.get("detail")) for v in res.get("violations", ())]
+
+
+def rerun_history(modname, history, options=None):
+    """Re-execute a worker's case sequence up to one case in a fresh (spawned) process: for violations that depend on what ran before"""
+    ctx = multiprocessing.get_context("spawn")
+    with ctx.Pool(1) as p:
+        return p.apply(_replay_history_child, ((modname, history["tier"], history["seed"], history["shard"], history["nshards"], history["upto"], options or {}),))
+
+
 def rerun_fresh(modname, case, options=None):
     """Re-execute one case in a fresh process (spawned, so no inherited module state)"""
     ctx = multiprocessing.get_context("spawn")
@@ -331,7 +363,7 @@ def explore(modname, tier, seed, jobs=None, limit=None, options=None, list_sigs=
     if jobs == 1:
         summaries = [_worker(args[0])]
     else:
-        pool = ctx.Pool(jobs)
+        pool = ctx.Pool(jobs, maxtasksperchild=1)  # one process per shard: a worker's history is exactly its shard's case sequence
         try:
             r = pool.map_async(_worker, args, chunksize=1)
             summaries = r.get(timeout=backstop)
@@ -373,24 +405,41 @@ def explore(modname, tier, seed, jobs=None, limit=None, options=None, list_sigs=
         )
     reported = []
     nonrepro = []
+    deferred, hist_budget, hist_confirmed = [], 2, 0
     for ent in unmatched:
         # reproduce in a fresh process before reporting (cap: first 40 signatures; the rest are listed unreproduced)
         if len(reported) < getattr(mod, "MAX_REPORT", 25):
             if getattr(mod, "REPRODUCE", True):
                 again = rerun_fresh(modname, ent["example"]["case"], options)
                 if sig_key(ent["sig"]) not in {sig_key(v["sig"]) for v in again}:
-                    nonrepro.append(ent)
-                    continue
+                    # not a property of this one input: does it depend on what the same worker ran before it (state kept by the library)?
+                    history = dict(tier=tier, seed=seed, shard=ent["first_idx"] % jobs, nshards=jobs, upto=ent["first_idx"])
+                    if hist_budget <= 0 or limit is not None:
+                        deferred.append(ent)  # a history replay re-runs up to a whole shard: only the first two are replayed
+                        continue
+                    hist_budget -= 1
+                    again_h = rerun_history(modname, history, options)
+                    if sig_key(ent["sig"]) not in {sig_key(v["sig"]) for v in again_h}:
+                        nonrepro.append(ent)
+                        continue
+                    ent["example"]["history"] = history
+                    hist_confirmed += 1
             path = write_replay(prop, modname, ent["sig"], ent["example"])
             reported.append((ent, path))
     for ent, path in reported:
         lines.append("VIOLATION property={} replay={}".format(prop, path))
         if not quiet:
             lines.append("  signature: " + jdump(ent["sig"]) + " cases=%d" % ent["count"])
+            if ent["example"].get("history"):
+                lines.append("  history-dependent: the input alone does not show it in a fresh process; it reproduces after the %d cases the same worker ran before it (replay re-runs them)" % (ent["example"]["history"]["upto"] // ent["example"]["history"]["nshards"]))
             lines.append("  expected:  " + str(ent["example"].get("expected"))[:400])
             lines.append("  observed:  " + str(ent["example"].get("observed"))[:400])
-    if len(unmatched) > len(reported) + len(nonrepro):
-        lines.append("  (+%d further unmatched signatures not individually replayed)" % (len(unmatched) - len(reported) - len(nonrepro)))
+    if deferred and hist_confirmed:
+        lines.append("  (+%d further signatures that do not reproduce from their input alone; like the %d above they are taken to be history-dependent, not individually replayed)" % (len(deferred), hist_confirmed))
+    elif deferred:
+        nonrepro.extend(deferred)
+    if len(unmatched) > len(reported) + len(nonrepro) + (len(deferred) if hist_confirmed else 0):
+        lines.append("  (+%d further unmatched signatures not individually replayed)" % (len(unmatched) - len(reported) - len(nonrepro) - (len(deferred) if hist_confirmed else 0)))
     if unmatched and (reported or len(unmatched) > len(nonrepro)):
         exit_code = 1
     for ent in nonrepro:
@@ -454,7 +503,7 @@ def explore(modname, tier, seed, jobs=None, limit=None, options=None, list_sigs=
 def replay(modname, path):
     with open(path) as f:
         doc = json.load(f)
-    again = rerun_fresh(modname, doc["case"])
+    again = rerun_history(modname, doc["history"]) if doc.get("history") else rerun_fresh(modname, doc["case"])
     want = sig_key(doc["signature"])
     hit = [v for v in again if sig_key(v["sig"]) == want]
     for v in again:
